@@ -372,6 +372,99 @@ pub fn run_ext(seed: u64, thorough: bool) {
     }
 }
 
+/// C11 for port graphs: chains of host extensions (relabel nodes by a permutation, add a
+/// node, add a port at the end of a node's inputs or outputs, link two previously unlinked
+/// ports). Each step records the node map rho from the previous host's node ids to the new
+/// host's. The E2E record carries the full checks; the EXTG record ties the hosts together.
+pub fn run_ext_pg(seed: u64, thorough: bool) {
+    let mut rng = Rng::new(seed, "cross.ext.pg");
+    let n = if thorough { 3000 } else { 300 };
+    for _ in 0..n {
+        let pats: Vec<PgPat> = gen_pg_set(&mut rng, false, false);
+        // host 0: a pattern itself, or a host containing a relabelled copy
+        let base = rng.pick(&pats).0.clone();
+        let mut h: GDesc = if rng.chance(1, 2) { base.clone() } else { host_with_copy(&mut rng, &base) };
+        let mut hosts = vec![h.clone()];
+        let mut rhos: Vec<Vec<usize>> = vec![];
+        for _ in 0..rng.range(1, 4) {
+            let nn = h.nodes.len();
+            let mut rho: Vec<usize> = (0..nn).collect();
+            let live: Vec<usize> = h.live();
+            match rng.below(4) {
+                0 => {
+                    // relabel by a permutation of the node slots
+                    let mut perm: Vec<usize> = (0..nn).collect();
+                    rng.shuffle(&mut perm);
+                    let mut nodes = vec![None; nn];
+                    for i in 0..nn {
+                        nodes[perm[i]] = h.nodes[i];
+                    }
+                    let links = h
+                        .links
+                        .iter()
+                        .map(|((a, oa), (b, ob))| ((perm[*a], *oa), (perm[*b], *ob)))
+                        .collect();
+                    h = GDesc { nodes, links };
+                    rho = perm;
+                }
+                1 => {
+                    h.nodes.push(Some((rng.range(0, 2), rng.range(0, 2))));
+                }
+                2 => {
+                    if !live.is_empty() {
+                        let v = *rng.pick(&live);
+                        let (i, o) = h.nodes[v].unwrap();
+                        h.nodes[v] = if rng.chance(1, 2) { Some((i + 1, o)) } else { Some((i, o + 1)) };
+                    }
+                }
+                _ => {
+                    // link two previously unlinked ports
+                    let mut free_out = vec![];
+                    let mut free_in = vec![];
+                    for &v in &live {
+                        let (i, o) = h.nodes[v].unwrap();
+                        for k in 0..o {
+                            if !h.links.iter().any(|l| l.0 == (v, k)) {
+                                free_out.push((v, k));
+                            }
+                        }
+                        for k in 0..i {
+                            if !h.links.iter().any(|l| l.1 == (v, k)) {
+                                free_in.push((v, k));
+                            }
+                        }
+                    }
+                    if !free_out.is_empty() && !free_in.is_empty() {
+                        h.links.push((*rng.pick(&free_out), *rng.pick(&free_in)));
+                    }
+                }
+            }
+            hosts.push(h.clone());
+            rhos.push(rho);
+        }
+        let heur = crate::e2e::random_heur(&mut rng);
+        if let Some(r) = pg_case("E2E", &pats, true, &heur, &hosts) {
+            let mut l = Line::new("EXTG");
+            l.list(&pats, |l, (g, root)| {
+                g.encode(l);
+                l.opt(root, |l, r| {
+                    l.tok(r);
+                });
+            });
+            l.list(&rhos, |l, rho| {
+                l.nats(rho);
+            });
+            l.list(&r.many, |l, m| {
+                l.tok(m);
+            });
+            l.list(&r.naive, |l, m| {
+                l.tok(m);
+            });
+            l.emit();
+        }
+    }
+}
+
 fn fnv(s: &str) -> u64 {
     let mut h: u64 = 0xcbf29ce484222325;
     for b in s.bytes() {
